@@ -424,10 +424,13 @@ def seeds_for(tier):
 
 
 def shard(tasks, k):
-    """Split tasks into k shards of similar cost (round-robin over tasks sorted by weight)."""
+    """Split tasks into k shards of similar estimated cost (longest-processing-time-first)."""
     shards = [[] for _ in range(k)]
-    for n, t in enumerate(sorted(tasks, key=lambda t: -t.get("weight", 1))):
-        shards[n % k].append(t)
+    load = [0.0] * k
+    for t in sorted(tasks, key=lambda t: -t.get("weight", 1)):
+        m = load.index(min(load))
+        shards[m].append(t)
+        load[m] += t.get("weight", 1)
     return [s for s in shards if s]
 
 
